@@ -74,6 +74,10 @@ CHECKS.update({
    text="Runtime monitoring under ASan+UBSan: all add() sequences up to length 7 (quick) / 9 (thorough) over nine 6-element alphabets plus random/adversarial sequences to 2e4 adds and pools written out by Assembler/Builder/Compiler; a byte-map/interval model checks alignment, stability, deduplication, legal sharing only, fill() contents and zero gaps with canaries; x86-64 code loads every constant through the returned operand.",
    design_ref="DESIGN.md section 2, C19", note="Only the stated alphabets/lengths are enumerated completely.",
    technique="sanitizer build + reference-model monitor (bounded-exhaustive + random sequences)"),
+ "C20": dict(category="exploration",
+   text="Runtime monitoring under ASan+UBSan: the C01 (x86-32/x86-64) and C02 (AArch64) case streams are emitted with a StringLogger attached under complementary FormatFlags sets (all 256 sets in the thorough tier); every logged line is tokenised by an independent parser and compared token by token with the operands that were given (mnemonic, prefixes/options, register names and sizes, memory size/segment/base/index/scale/displacement/broadcast, immediates, masks, label names); the machine-code column is compared with the bytes appended; x86 lines are additionally cross-compared with objdump's decoding of the emitted bytes; Formatter::format_instruction/format_operand/format_node are called directly with an Assembler, a Compiler (named and unnamed virtual registers, all label kinds) and no emitter.",
+   design_ref="DESIGN.md section 2, C20", note="The text appended by kExplainImms after an immediate is not judged; objdump cross-check only where xdec confirms the encoding.",
+   technique="sanitizer build + independent tokeniser/round-trip monitor over logger output + decoder differential"),
 })
 
 NOT_YET = {}
